@@ -179,7 +179,9 @@ def as_leaf(op):
 
 # ------------------------------------------------------------------------------------------------ simulator
 class Sim:
-    """State tensor of shape (2,)*n + (C,): one column per input state; first wire = most significant."""
+    """Column simulator.  State = array (2**n, C): row index = basis state (first wire most significant), one column per
+    input state.  Every gate is 'matrix M on target wires, conditioned on a control pattern'; it is applied on explicit row
+    index sets (rows whose control bits match, grouped by the value of the target bits)."""
 
     def __init__(self, wires, cols):
         self.wires = list(wires)
@@ -187,46 +189,51 @@ class Sim:
         cols = np.asarray(cols, dtype=complex)
         if cols.ndim == 1:
             cols = cols.reshape(-1, 1)
+        if cols.shape[0] != 2 ** n:
+            raise ValueError("column length does not match the number of wires")
         self.C = cols.shape[1]
-        self.t = np.ascontiguousarray(cols.reshape((2,) * n + (self.C,)))
+        self.t = np.ascontiguousarray(cols)
         self.base_n = n
         self.gates = 0
         self.leaf_names = set()
         self.max_wires = n
         self.allocs = 0
+        self._restored = {}
 
     # -- wires
-    def ax(self, w):
+    def bit(self, w):
+        """bit position (0 = least significant) of wire w in the row index"""
         try:
-            return self.wires.index(w)
+            return len(self.wires) - 1 - self.wires.index(w)
         except ValueError:
             raise ExpansionProblem("foreign-wire", repr(w)) from None
 
-    def allocate(self, wires, state="zero"):
+    def allocate(self, wires, state="zero", restored=True):
         if str(state) not in ("zero", "AllocateState.ZERO"):
             raise Unsupported(f"allocation in state {state}")
         for w in wires:
-            n = len(self.wires)
-            new = np.zeros((2,) * n + (2, self.C), dtype=complex)
-            new[(slice(None),) * n + (0,)] = self.t
+            new = np.zeros((2 * self.t.shape[0], self.C), dtype=complex)
+            new[0::2] = self.t
             self.t = new
             self.wires.append(w)
+            self._restored[w] = bool(restored)
             self.allocs += 1
         self.max_wires = max(self.max_wires, len(self.wires))
 
-    def deallocate(self, wires, restored=True):
+    def deallocate(self, wires):
         for w in wires:
-            a = self.ax(w)
-            if a < self.base_n:
+            b = self.bit(w)
+            if self.wires.index(w) < self.base_n:
                 raise ExpansionProblem("deallocate-static-wire", repr(w))
-            one = self.t[(slice(None),) * a + (1,)]
+            rows = np.arange(self.t.shape[0])
+            one = self.t[(rows >> b) & 1 == 1]
             leak = float(np.sqrt(np.sum(np.abs(one) ** 2)))
             if leak > 1e-7:
-                if restored:
+                if self._restored.get(w, True):
                     raise ExpansionProblem("dyn-wire-not-restored", f"|1> weight {leak:.3g} at Deallocate")
                 raise Unsupported("garbage wire deallocated in an entangled state")
-            self.t = np.ascontiguousarray(self.t[(slice(None),) * a + (0,)])
-            self.wires.pop(a)
+            self.t = np.ascontiguousarray(self.t[(rows >> b) & 1 == 0])
+            self.wires.remove(w)
 
     # -- gates
     def apply(self, leaf):
@@ -238,74 +245,62 @@ class Sim:
             self.t *= leaf[1]
             return
         if kind == "u":
-            _apply_view(self.t, leaf[1], [self.ax(w) for w in leaf[2]])
+            M, cw, cv, tw = leaf[1], [], [], leaf[2]
+        else:
+            _, M, cw, cv, tw = leaf
+        cb = [self.bit(w) for w in cw]
+        tb = [self.bit(w) for w in tw]
+        if len(set(cb + tb)) != len(cb) + len(tb):
+            raise ExpansionProblem("repeated-wire-in-gate", repr((cw, tw)))
+        k = len(tb)
+        M = np.asarray(M, dtype=complex)
+        if M.shape != (2 ** k, 2 ** k):
+            raise Unsupported(f"matrix shape {M.shape} for {k} target wires")
+        rows = np.arange(self.t.shape[0])
+        sel = np.ones(rows.shape, dtype=bool)
+        for b, v in zip(cb, cv):
+            sel &= ((rows >> b) & 1) == v
+        for b in tb:
+            sel &= ((rows >> b) & 1) == 0
+        base = rows[sel]
+
+        def R(i):
+            off = 0
+            for j, b in enumerate(tb):
+                if (i >> (k - 1 - j)) & 1:
+                    off |= 1 << b
+            return base | off
+
+        t = self.t
+        if k == 0:
+            t[base] *= M[0, 0]
             return
-        _, M, cw, cv, tw = leaf
-        cax = [self.ax(w) for w in cw]
-        tax = [self.ax(w) for w in tw]
-        if len(set(cax + tax)) != len(cax) + len(tax):
-            raise ExpansionProblem("overlapping-control-target", repr((cw, tw)))
-        idx = [slice(None)] * self.t.ndim
-        for a, v in zip(cax, cv):
-            idx[a] = v
-        view = self.t[tuple(idx)]
-        # axes of the view: removed axes shift the later ones down
-        tax2 = [a - sum(1 for c in cax if c < a) for a in tax]
-        if not tax2:
-            view *= M[0, 0]
+        nz = M != 0
+        if np.all(nz.sum(axis=0) == 1) and np.all(nz.sum(axis=1) == 1):
+            # monomial (diagonal / permutation with phases): move and scale row blocks
+            moved = []
+            for i in range(2 ** k):
+                j = int(np.nonzero(nz[:, i])[0][0])
+                if j != i:
+                    moved.append((j, M[j, i], t[R(i)]))
+                elif M[i, i] != 1:
+                    t[R(i)] *= M[i, i]
+            for j, f, data in moved:
+                t[R(j)] = data if f == 1 else data * f
             return
-        _apply_view(view, M, tax2)
+        S = np.stack([t[R(i)] for i in range(2 ** k)], axis=0)
+        out = np.tensordot(M, S, axes=(1, 0))
+        for i in range(2 ** k):
+            t[R(i)] = out[i]
 
     # -- results
     def columns(self):
-        """(2**base_n, C) block with all dynamic wires in |0>, and the norm that leaked out of that block."""
-        t = self.t
+        """(2**base_n, C) block with all dynamic wires in |0>, and the squared norm found outside that block."""
         extra = len(self.wires) - self.base_n
-        blk = t[(slice(None),) * self.base_n + (0,) * extra]
-        tot = float(np.sum(np.abs(t) ** 2))
+        blk = self.t[:: 2 ** extra]
+        tot = float(np.sum(np.abs(self.t) ** 2))
         inb = float(np.sum(np.abs(blk) ** 2))
-        return blk.reshape(2 ** self.base_n, self.C), max(0.0, tot - inb)
-
-
-def _is_diag(M):
-    return np.count_nonzero(M - np.diag(np.diagonal(M))) == 0
-
-
-_X = RG.X
-
-
-def _apply_view(view, M, axes):
-    """In-place application of M (2^k x 2^k) on integer `axes` of the ndarray (possibly a view)."""
-    k = len(axes)
-    if _is_diag(M):
-        d = np.diagonal(M)
-        for i in range(2 ** k):
-            if d[i] == 1:
-                continue
-            idx = [slice(None)] * view.ndim
-            for j, a in enumerate(axes):
-                idx[a] = (i >> (k - 1 - j)) & 1
-            view[tuple(idx)] *= d[i]
-        return
-    if k == 1:
-        a = axes[0]
-        i0 = (slice(None),) * a + (0,)
-        i1 = (slice(None),) * a + (1,)
-        s0, s1 = view[i0], view[i1]
-        if M[0, 0] == 0 and M[1, 1] == 0:  # X-like: new0 = M01 * s1, new1 = M10 * s0
-            n0 = s1 * M[0, 1]
-            n1 = s0 * M[1, 0]
-            view[i0] = n0
-            view[i1] = n1
-            return
-        n0 = M[0, 0] * s0 + M[0, 1] * s1
-        n1 = M[1, 0] * s0 + M[1, 1] * s1
-        view[i0] = n0
-        view[i1] = n1
-        return
-    Mt = np.asarray(M, dtype=complex).reshape((2,) * (2 * k))
-    out = np.tensordot(Mt, view, axes=(list(range(k, 2 * k)), list(axes)))
-    view[...] = np.moveaxis(out, list(range(k)), list(axes))
+        return blk, max(0.0, tot - inb)
 
 
 # ------------------------------------------------------------------------------------------------ expansion
@@ -320,14 +315,10 @@ def run(sim, ops, depth=0, stack=()):
 
     for o in ops:
         if isinstance(o, Allocate):
-            sim.allocate(list(o.wires), getattr(o, "state", "zero"))
-            sim._restored = getattr(sim, "_restored", {})
-            for w in o.wires:
-                sim._restored[w] = bool(getattr(o, "restored", True))
+            sim.allocate(list(o.wires), getattr(o, "state", "zero"), getattr(o, "restored", True))
             continue
         if isinstance(o, Deallocate):
-            for w in o.wires:
-                sim.deallocate([w], getattr(sim, "_restored", {}).get(w, True))
+            sim.deallocate(list(o.wires))
             continue
         tname = type(o).__name__
         if tname in ("MidMeasureMP", "MidMeasure", "Conditional", "PauliMeasure", "MeasurementValue"):
